@@ -308,7 +308,10 @@ def canon_test(text):
     try:
         n = ast.parse(text, mode="eval").body
         flip = False
-        changed = False
+        before = ast.unparse(n)
+        from .alpha import order_compares
+        n = order_compares(n)
+        changed = ast.unparse(n) != before
         while True:
             if isinstance(n, ast.UnaryOp) and isinstance(n.op, ast.Not):
                 n = n.operand
